@@ -139,6 +139,14 @@ func init() {
 					}
 				}
 			}
+			// blocks larger than the LZ family's literal-run / match-length encoding limits
+			for _, t := range allTransforms {
+				for _, e := range []string{"NONE", "HUFFMAN"} {
+					for _, sh := range []string{"longlit", "mixed", "runs"} {
+						emit(rtCase{Space: "codec", P: Params{t, e, 262144, 2, 32, -1, false}, Shape: sh, Len: 262144 + 50000, DecJobs: 2})
+					}
+				}
+			}
 			// all ordered pairs of transforms
 			pairShapes := pick(c, []string{"text", "dna", "runs", "lzbound"}, []string{"text", "dna", "runs", "lzbound", "utf8-3", "elf"})
 			for _, t1 := range allTransforms[1:] {
